@@ -6,10 +6,10 @@ import vlib
 from vlib import log
 
 KIND = {"table": "KdTable", "method": "KdMethod", "header": "KdHeader", "frame": "KdFrame", "message": "KdMessage",
-        "queue": "KdQueue", "exchange": "KdExchange", "binding": "KdBinding", "shortstr": "KdShortstr", "longstr": "KdLongstr"}
+        "closeerr": "KdMethod", "queue": "KdQueue", "exchange": "KdExchange", "binding": "KdBinding", "shortstr": "KdShortstr", "longstr": "KdLongstr"}
 DIAL = {"091": "D091", "rabbit": "DRabbit"}
 UNREP = re.compile(r"VNilTablePtr|NILTABLE|VUnknown|MUnknown")
-STREAM_KINDS = {"table", "method", "header", "frame", "shortstr", "longstr"}
+STREAM_KINDS = {"table", "method", "closeerr", "header", "frame", "shortstr", "longstr"}
 
 PRELUDE = ("From Coq Require Import List String NArith Bool.\nImport ListNotations.\n"
            "From GMQ Require Import Base.Bytes Codec.Desc Codec.Prim Codec.Value Codec.MethodCodec Codec.Header Codec.Frame "
